@@ -298,7 +298,7 @@ func c19Specs(tier string) []c19Spec {
 			{[]string{"literal", "ref:default/s2", "ref:s2"}},
 		}
 	}
-	var out []c19Spec
+	out := c19Specs("quick")
 	opts := []string{"literal", "ref:s1", "ref:s2"}
 	for _, a := range opts {
 		for _, b := range opts {
@@ -322,9 +322,12 @@ func c19Run(run *ev.Run) {
 		fmt.Sscanf(d, "%d", &depth)
 	}
 	var total seqx.Stats
-	for _, spec := range c19Specs(run.Tier) {
+	for si, spec := range c19Specs(run.Tier) {
 		m := c19Model(run, spec)
 		m.MaxDepth = depth
+		if run.Tier == "thorough" && si >= 3 && os.Getenv("VERIF_C19_DEPTH") == "" {
+			m.MaxDepth = 6 // all 28 assignments at depth 6; the first three at depth 7
+		}
 		st := seqx.Explore(run, m)
 		total.States += st.States
 		total.Transitions += st.Transitions
